@@ -370,12 +370,13 @@ package smtp
 // C05  Envelope addresses and command lines cannot be smuggled
 //
 // nocrlf / argsafe / pathsafe are byte-level predicates (engine/stdlib/core.spec). pathsafe is
-// the necessary condition "no CR, LF, blank, '<' or '>'" for an address placed between the
-// angle brackets of MAIL FROM / RCPT TO.
+// the condition for an address placed between the angle brackets of MAIL FROM / RCPT TO as it is: no CR, LF, blank,
+// '<' or '>' anywhere, and nothing in front of the last '@' that would need a quoted local part (pathlocal).
 //@ func smtp.validateLine
 //@   ensures[C05:def] (result == nil) <==> nocrlf(line)
 //@ func smtp.validatePath
-//@   ensures[C05:def] (result == nil) <==> nobrk(addr)
+//@   ensures[C05:def] (result == nil) ==> nobrk(addr)
+//@   ensures[C05:local-part-needs-no-quoting] (result == nil) ==> pathlocal(addr)
 //@ func smtp.Client.cmd (expectCode, format, args) (code, msg, err)
 //@   requires[C05:format] c != nil && nocrlf(format)
 //@   requires[C05:args] forall k :: 0 <= k && k < len(args) && istype(args[k], "string") ==> nocrlf(unboxstr(args[k]))
